@@ -46,6 +46,13 @@ def build_base(kind):
     if kind == "multiplex":
         return MultiplexForecaster([("naive", NaiveForecaster()), ("trend", PolynomialTrendForecaster())],
                                    selected_forecaster="naive")
+    if kind == "reduce":
+        from sklearn.linear_model import LinearRegression
+
+        from harness.doubles import ScalarOut
+        from sktime.forecasting.compose import make_reduction
+
+        return make_reduction(ScalarOut(LinearRegression()), strategy="recursive", window_length=3)
     raise ValueError(kind)
 
 
@@ -60,6 +67,12 @@ def oracle(case, ctx):
         ctx.label("scale_%g" % scale)
     y = gen.build_series(vals, case["start"], case["index_kind"])
     y_new = gen.build_series([v * 1.01 + 0.3 * scale for v in vals[:3]], case["start"] + n, case["index_kind"])
+    X = X_new = None
+    if case["base"] == "reduce":
+        # exogenous data the forecaster really uses (lagged columns of X enter every regression)
+        X = pd.DataFrame({"x": [(3.0 * ((i * 7) % 5) + 0.5 * i) * scale for i in range(n)]}, index=y.index)
+        X_new = pd.DataFrame({"x": [2.5 * scale, 4.0 * scale, 1.5 * scale]}, index=y_new.index)
+        ctx.label("with_exogenous_data")
     metric = build_metric(case["metric"])
     gib = bool(metric.greater_is_better)
     grid = case["grid"]
@@ -78,13 +91,13 @@ def oracle(case, ctx):
     exp_scores = []
     for p in cands:
         f = clone(base).set_params(**p)
-        r = sut(evaluate, f, build_cv(case["cv"]), y, None, strategy=strategy, scoring=metric)
+        r = sut(evaluate, f, build_cv(case["cv"]), y, X, strategy=strategy, scoring=metric)
         if isinstance(r, Raised):
             # evaluate refuses a candidate the generator builds to be valid (it never does on the unchanged tree)
             return [D("independent_evaluate_raised:%s@%s" % (r.type, r.where), "candidate %s: %s" % (p, r.msg))]
         # ... and what the scores ARE: the plain metric function on each fold's forecasts
         # (return_data gives y_test / y_pred of the same run)
-        rd = sut(evaluate, clone(base).set_params(**p), build_cv(case["cv"]), y, None, strategy=strategy, scoring=metric, return_data=True)
+        rd = sut(evaluate, clone(base).set_params(**p), build_cv(case["cv"]), y, X, strategy=strategy, scoring=metric, return_data=True)
         if isinstance(rd, Raised):
             return [D("independent_evaluate_raised:%s@%s" % (rd.type, rd.where), "candidate %s (return_data=True): %s" % (p, rd.msg))]
         raw = raw_metric(case["metric"])
@@ -95,7 +108,7 @@ def oracle(case, ctx):
         exp_scores.append(float(r[col].mean()))
     fh = case["cv"]["fh"]
     yc = y.copy()
-    r = sut(tuner.fit, yc, None, fh)
+    r = sut(tuner.fit, yc, None if X is None else X.copy(), fh)
     ctx.label(case["base"])
     ctx.label(case["search"])
     ctx.label("greater_is_better" if gib else "loss")
@@ -148,18 +161,25 @@ def oracle(case, ctx):
         discs.append(D("best_params", "best_params_ %s row %s" % (tuner.best_params_, cands[bi])))
     if case["refit"]:
         direct = clone(base).set_params(**cands[bi])
-        direct.fit(y, None, fh)
-        a, b = sut(tuner.predict, fh), sut(direct.predict, fh)
+        direct.fit(y, None if X is None else X.copy(), fh)
+        def xf(c):
+            # future values of the exogenous variable for every step up to the furthest one
+            if X is None:
+                return None
+            hm = max(fh)
+            return pd.DataFrame({"x": [(1.5 + 0.25 * j) * scale for j in range(hm)]}, index=gen.int_index(int(c) + 1, hm, case["index_kind"]))
+
+        a, b = sut(tuner.predict, fh, xf(direct.cutoff)), sut(direct.predict, fh, xf(direct.cutoff))
         discs += _same_pred(a, b, "predict")
         c = sut(lambda: tuner.cutoff)
         if isinstance(c, Raised) or int(c) != int(direct.cutoff):
             discs.append(D("tuner_cutoff", "%r vs %r" % (c, direct.cutoff)))
-        u = sut(tuner.update, y_new.copy())
+        u = sut(tuner.update, y_new.copy(), None if X_new is None else X_new.copy())
         if isinstance(u, Raised):
             discs.append(D("tuner_update_raised:%s" % u.type, u.msg))
         else:
-            direct.update(y_new.copy(), update_params=False)
-            discs += _same_pred(sut(tuner.predict, fh), sut(direct.predict, fh), "predict after update")
+            direct.update(y_new.copy(), None if X_new is None else X_new.copy(), update_params=False)
+            discs += _same_pred(sut(tuner.predict, fh, xf(direct.cutoff)), sut(direct.predict, fh, xf(direct.cutoff)), "predict after update")
             c = sut(lambda: tuner.cutoff)
             if isinstance(c, Raised) or int(c) != int(direct.cutoff):
                 discs.append(D("tuner_cutoff_after_update", "%r vs %r" % (c, direct.cutoff)))
@@ -212,6 +232,8 @@ def grids(draw, base, search):
                 {"strategy": ["last", "mean"]}]
     if base == "trend":
         return {"degree": draw(_subset([0, 1, 2, 3], 2)), "with_intercept": [True]}
+    if base == "reduce":
+        return {"window_length": draw(_subset([2, 3, 4, 5], 2))}
     if base == "pipeline":
         return {"deseasonalizer__sp": draw(_subset([1, 2, 3], 1)),
                 "deseasonalizer__model": draw(_subset(["additive", "multiplicative"])),
@@ -226,7 +248,7 @@ def grids(draw, base, search):
 
 @st.composite
 def cases(draw):
-    base = draw(st.sampled_from(["naive", "naive", "trend", "pipeline", "multiplex"]))
+    base = draw(st.sampled_from(["naive", "naive", "trend", "pipeline", "multiplex", "reduce"]))
     search = draw(st.sampled_from(["grid", "grid", "random"]))
     grid = draw(grids(base, search))
     fh = draw(gen.fh_steps(max_step=3, max_size=2))
